@@ -137,7 +137,7 @@ let q_line sch (f : dnode list) (g : dnode list) (d : change list) : string =
   (* paths identify nodes only without duplicate-instance lists and without duplicate instances in the input *)
   let ab = not (changes_idb sch d) || not (uniq_idsb sch f) || forest_eqb (np_norm sch (apply_changes sch d f)) g in
   let asb = ab || forest_eqb (np_norm sch (apply_changes_all sch d f)) g in
-  Printf.sprintf "Q N=%s%s A=%s AS=%s F=%s C=%s K=%s D=%s S=%s" (b2s nb) (if nb then "" else ":" ^ normal_reasons sch g) (b2s ab) (b2s asb)
+  Printf.sprintf "Q H=%s N=%s%s A=%s AS=%s F=%s C=%s K=%s D=%s S=%s" (b2s (editedb sch f)) (b2s nb) (if nb then "" else ":" ^ normal_reasons sch g) (b2s ab) (b2s asb)
     (b2s (np_flagsb sch f)) (b2s (canonb sch None g)) (b2s (chc_okb sch && schema_okb sch && sids_uniqb sch && keys_plainb sch))
     (b2s (not (flag_soundb sch f) || flag_soundb sch g)) (silent_info d)
 
